@@ -135,6 +135,8 @@ func (m *expirationMap[V]) cleanup(store store[V], policy *defaultPolicy[V], onE
 
 	for _, keys := range buckets {
 		for key, conflict := range keys {
+			verifObserve(vpSweepKey, key, conflict)
+			verifPoint(vpSweepKey)
 			// Remove the key only if the store agrees that it is expired. The check and the
 			// removal happen in one critical section: an entry that is concurrently re-written
 			// with a later TTL, or with no TTL, must not be removed by expiry processing.
@@ -142,9 +144,11 @@ func (m *expirationMap[V]) cleanup(store store[V], policy *defaultPolicy[V], onE
 			if !ok {
 				continue
 			}
+			verifPoint(vpSweepStoreDel)
 
 			cost := policy.Cost(key)
 			policy.Del(key)
+			verifPoint(vpSweepPolicyDel)
 
 			if onEvict != nil {
 				onEvict(&Item[V]{Key: key,
